@@ -18,6 +18,7 @@ from fractions import Fraction
 
 import numpy as np
 
+from .. import driver
 from ..driver import model
 from ..runner import Stream
 
@@ -33,7 +34,7 @@ TRUSTED = [
     "E[x^2]-E[x]^2 is the implementation's)",
     "float -> integer transfer on one power-of-two scale s per case (means, stds: x*s; impurities, min_variance: x*s^2), exact; "
     "that no verdict depends on s is proved: C18_scale_equivariant (model), C18_oracle/corr/same/lcb_scale_invariant (oracles)",
-    "an attempt of a case that raises / exceeds 40 s is repeated up to 3 times and reported only if it fails every time (wrong values are "
+    "an attempt of a case that raises / exceeds 90 s is repeated up to 3 times and reported only if it fails every time (wrong values are "
     "never retried; retries show as 'retried_after:*' in the histogram)",
     "joblib threading backend (require='sharedmem') runs every delayed call exactly once; scipy.stats.norm and the global NumPy RNG "
     "(seeded identically for both sides) in the EI/PI/MES metamorphic comparison",
@@ -290,7 +291,17 @@ def check_acq(case):
 
 
 # ---------------------------------------------------------------- robustness against infrastructure noise
-ATTEMPT_S = 40
+ATTEMPT_S = 90
+
+
+def _fresh_model():
+    """an attempt that was interrupted inside model().call leaves the line protocol one reply out of step: start a new process"""
+    try:
+        if driver._model is not None:
+            driver._model.p.kill()
+    except Exception:
+        pass
+    driver.reset_after_fork()
 
 
 def robust(check):
@@ -308,6 +319,7 @@ def robust(check):
                 r = check(case)
             except Exception as e:  # includes the runner's CaseTimeout
                 last = e
+                _fresh_model()
                 notes.append("retried_after:" + type(e).__name__)
                 continue
             finally:
@@ -444,6 +456,11 @@ def shrink(case):
 
 def streams(tier):
     th = tier == "thorough"
+    try:  # warm-up: a watchdog alarm landing inside the FIRST import would leave half-initialised modules behind
+        import deephyper.skopt.acquisition  # noqa: F401
+        import deephyper.skopt.learning  # noqa: F401
+    except Exception:
+        pass  # the checks import again and report the exception
     return [
         Stream("forest_predict", gen_predict(6000 if th else 600), robust(check_predict), shrink, timeout=3 * ATTEMPT_S),
         Stream("acq_d", gen_acq(2000 if th else 200), robust(check_acq), shrink, timeout=3 * ATTEMPT_S),
